@@ -123,7 +123,7 @@ def check_shift(ctx):
         if scaleE:
             mp['Es'] = lambda labs: c * sym('Es', W)
         compare(ctx, 'ALG-2', 'flag %d: log flux shifts by log10 c' % k, loc(glf), Arr((W,), alg.subst_sym(lf.poly, mp) - lf.poly), alg.log10(c), (W,),
-                vocab={'Fs', 'Es', 'c'}, detail_ok='L(cF, cE) - L(F, E) == log10 c')
+                vocab={'Fs', 'Es', 'c'}, findings=[f_ for f_ in rows[k][2] if f_.kind == 'dtype'], detail_ok='L(cF, cE) - L(F, E) == log10 c')
         compare(ctx, 'ALG-2', 'flag %d: weight and log error are scale-free' % k, loc(glf),
                 Arr((W,), (alg.subst_sym(wt.poly, mp) - wt.poly) + sym('z') * (alg.subst_sym(le.poly, mp) - le.poly)), Poly(), (W,), vocab={'Fs', 'Es', 'c', 'z'},
                 detail_ok='weight(cF,cE) == weight(F,E) and log_error(cF,cE) == log_error(F,E)')
@@ -220,6 +220,7 @@ def run(ctx):
     from . import c01, c02
     c01.check_fit_2d(ctx)        # multiplying the fluxes by c shifts the scale and nothing else: the residuals the kernels are given are log flux - log model flux for every flag
     c02.check_fit_3d(ctx)
+    c02.check_readers(ctx)       # 'nor on history': what a Fitter holds after reading a package is a function of the package (no cell of its arrays is left as it was found in memory)
 
 
 MO = 'sedfitter/models.py'
